@@ -68,6 +68,7 @@ type c13Ev struct {
 	NutsNo  []int    `json:"nutsno,omitempty"` // sweep: labels of the did:nuts DIDs for which IsCommitted answered false
 	Opts    []string `json:"opts,omitempty"`   // do/createopt: the CreationOptions in order: "s:<name>" | "enc" | "legacy" | "unk"
 	U       string   `json:"u,omitempty"`      // do/createopt: the alias for the name Create makes up itself (uuid / did:nuts DID)
+	IDs     []string `json:"ids,omitempty"`    // sort: the DIDs (their methods in `methods`), position = marker of the document
 	Pref    string   `json:"pref,omitempty"`   // cfg: SqlManager.PreferredOrder, comma separated ("" = nuts,web; "-" = empty)
 }
 
@@ -433,6 +434,30 @@ func (w *c13World) run(ev c13Ev) (c13Ev, string) {
 	case "cfg":
 		w.reset(ev.Methods, ev.Pref)
 		return ev, w.observe("cfg")
+	case "sort":
+		// the pure helpers behind ListDIDs / List / Create's answer, on DIDs of any method
+		list := make([]did.DID, len(ev.IDs))
+		docs := make([]did.Document, len(ev.IDs))
+		for i, s := range ev.IDs {
+			id, err := did.ParseDID(s)
+			if err != nil || id.Method != ev.Methods[i] {
+				w.t.Fatalf("sort: bad DID %q", s)
+			}
+			list[i] = *id
+			docs[i] = did.Document{ID: *id, Service: []did.Service{{Type: strconv.Itoa(i)}}}
+		}
+		pref := c13Pref(ev.Pref)
+		didsubject.VerifC13SortDIDs(list, pref)
+		didsubject.VerifC13SortDocuments(docs, pref)
+		a, b := make([]string, len(list)), make([]string, len(docs))
+		for i := range list {
+			a[i] = list[i].String()
+			b[i] = docs[i].ID.String() + "@"
+			if len(docs[i].Service) == 1 {
+				b[i] += docs[i].Service[0].Type
+			}
+		}
+		return ev, "sorted log=0 keys=0 list=ok ids=" + strings.Join(a, ",") + " docs=" + strings.Join(b, ",")
 	case "tick":
 		if err := w.db.Exec("UPDATE did_document_version SET updated_at = updated_at - ?, created_at = created_at - ?", ev.D, ev.D).Error; err != nil {
 			w.t.Fatal(err)
@@ -929,6 +954,7 @@ func TestVerifC13(t *testing.T) {
 	rng2 := rand.New(rand.NewSource(seed*7919 + 77)) // own stream: the older worlds keep their inputs
 	c13RequestWorlds(rng2, thorough, exec)
 	c13CleanupWorlds(rng2, thorough, exec)
+	c13SortWorld(rng2, thorough, exec)
 	for i, seq := range fixed {
 		for c, m := range c13Configs {
 			// every cut with both methods; on the single-method nodes every cut of the create, a third of the cuts of the longer ones (quick)
@@ -1035,6 +1061,50 @@ func c13RequestWorlds(rng *rand.Rand, thorough bool, exec func([]c13Ev)) {
 		}
 		world(m, c13Prefs[rng.Intn(len(c13Prefs))], evs)
 	}
+}
+
+// c13SortWorld: sortDIDsByMethod / sortDIDDocumentsByMethod on lists of DIDs of up to five methods (pairwise different methods: the only
+// inputs on which Go's unspecified sort.Slice is determined — theorem list_dids_order_unique —, plus repeats of one and the same DID)
+// under preferred orders with unlisted, repeated and foreign entries.
+func c13SortWorld(rng *rand.Rand, thorough bool, exec func([]c13Ev)) {
+	methods := []string{"nuts", "web", "key", "jwk", "x509"}
+	prefPool := []string{"nuts", "web", "key", "jwk", "x509", "other"}
+	n := 60
+	if thorough {
+		n = 1500
+	}
+	evs := []c13Ev{{Op: "cfg", Methods: []string{"nuts", "web"}, Tag: "sort:0"}}
+	for i := 0; i < n; i++ {
+		var pref []string
+		for k := rng.Intn(5); k > 0; k-- {
+			pref = append(pref, prefPool[rng.Intn(len(prefPool))])
+		}
+		p := strings.Join(pref, ",")
+		if len(pref) == 0 {
+			p = "-"
+			if rng.Intn(3) == 0 {
+				p = ""
+			}
+		}
+		perm := rng.Perm(len(methods))
+		ev := c13Ev{Op: "sort", Pref: p}
+		for _, mi := range perm[:rng.Intn(len(methods)+1)] {
+			m := methods[mi]
+			id := "did:" + m + ":" + fmt.Sprintf("%c%d", 'a'+rng.Intn(26), rng.Intn(100))
+			ev.Methods, ev.IDs = append(ev.Methods, m), append(ev.IDs, id)
+			if rng.Intn(6) == 0 { // the same DID once more (another document with that ID)
+				ev.Methods, ev.IDs = append(ev.Methods, m), append(ev.IDs, id)
+			}
+		}
+		if rng.Intn(2) == 0 {
+			rng.Shuffle(len(ev.IDs), func(a, b int) {
+				ev.IDs[a], ev.IDs[b] = ev.IDs[b], ev.IDs[a]
+				ev.Methods[a], ev.Methods[b] = ev.Methods[b], ev.Methods[a]
+			})
+		}
+		evs = append(evs, ev)
+	}
+	exec(evs)
 }
 
 // c13CleanupWorlds: the clean-up transaction of an operation fails with a DB error (with and without a failed did:nuts Commit
